@@ -223,6 +223,17 @@ def rule_dispatch(ctx: Ctx) -> None:
                       "(objects without a ROI cannot be matched geometrically; objects with geometry must be)", fi=fi, expected=want, found=out, sample={"row": inst, "matcher": want})
     ctx.table_rows += len(rows)
     ctx.require(len(rows) >= 12, f"get_object_results: only {len(rows)} rows of the matcher dispatch table recognised")
+    # ... also in the evaluation configuration
+    fcfg = ctx.func("config.perception_evaluation_config.PerceptionEvaluationConfig._extract_params")
+    vals = set()
+    for nd in ast.walk(fcfg.node):
+        if isinstance(nd, ast.Dict):
+            for k, v in zip(nd.keys, nd.values):
+                if isinstance(k, ast.Constant) and k.value == "uuid_matching_first":
+                    vals.add(S(v))
+    ctx.require(bool(vals), "_extract_params: the uuid_matching_first entry of the filtering parameters was not found")
+    for v in vals:
+        ctx.check(v.endswith(".get('uuid_matching_first',False)"), "C11-dispatch", "_extract_params", "uuid-first-default", f"the configuration exposes uuid_matching_first as `{v}`; it is off unless the configuration asks for it", fi=fcfg)
     # label-first is the default order of the traffic-light matcher, lane-id-first only on request
     for fq in ("evaluation.result.object_result.get_object_results", "evaluation.result.object_result._get_object_results_for_tlr"):
         f2 = ctx.func(fq)
